@@ -1683,7 +1683,8 @@ def _convert_if_zero(value: Any, atol: float = 1e-12):
         if np.allclose(value, 0, atol=atol):
             return zero
     elif sparse.issparse(value):
-        if np.abs(value.tocoo().data).max(initial=0) <= atol:
+        # (conversion to CSR sums duplicate entries of COO input)
+        if np.abs(sparse.csr_array(value).data).max(initial=0) <= atol:
             return zero
     elif isinstance(value, sympy.MatrixBase):
         if value.is_zero_matrix:
